@@ -2139,6 +2139,19 @@ def _isnan(L, x):
     return False
 
 
+@model('numpy.isclose')
+def _isclose(L, a, b, rtol=1e-05, atol=1e-08, equal_nan=False):
+    """|a - b| <= atol + rtol * |b| (element-wise)"""
+    def one(x, y):
+        x, y = to_real(x), to_real(y)
+        d = z3.If(x - y >= 0, x - y, y - x)
+        ay = z3.If(y >= 0, y, -y)
+        return d <= to_real(rv(float(atol))) + to_real(rv(float(rtol))) * ay
+    if isinstance(a, Arr) or isinstance(b, Arr):
+        return L.lift2(one, a, b, 'bool')
+    return one(a, b)
+
+
 @model('numpy.nan_to_num')
 def _nan_to_num(L, x, copy=True, nan=0.0, **kw):
     """NaN entries become `nan` (default 0.0); model R has no infinities to replace"""
